@@ -777,3 +777,231 @@ Proof.
   unfold insert. rewrite B. cbn [polygon flat_map fill_hole fold_left].
   apply filter_all. intros. reflexivity.
 Qed.
+
+(* ================================================================== 10. the cavity facts from edge closure *)
+Lemma edge_third_v : forall P t u v, In (u, v) (edges t) ->
+  exists w, In w (tri_verts t) /\ In u (tri_verts t) /\ In v (tri_verts t) /\
+            gorient (resolve P t) == orient (nth u P pzero) (nth v P pzero) (nth w P pzero) /\
+            forall x, gincircle (resolve P t) x == incircle (nth u P pzero) (nth v P pzero) (nth w P pzero) x.
+Proof.
+  intros P [[a b] c] u v H. simpl in H. destruct H as [E|[E|[E|[]]]]; injection E as <- <-.
+  - exists c. simpl. repeat split; auto; reflexivity.
+  - exists a. unfold gorient, gincircle, resolve. simpl. repeat split; auto; [symmetry; apply orient_cyc|].
+    intros x. symmetry. apply incircle_cyc.
+  - exists b. unfold gorient, gincircle, resolve. simpl. repeat split; auto; [apply orient_cyc|].
+    intros x. apply incircle_cyc.
+Qed.
+
+(* in-circle monotonicity along the pencil of circles through u and v: if p lies inside the circle of
+   the clockwise triangle (u,v,w), on or beyond the edge uv, and the apex z of the neighbour (v,u,z)
+   is not inside that circle, then p lies inside the neighbour's circle as well *)
+Lemma pencil_neighbour_bad : forall u v w z p,
+  orient u v w < 0 -> incircle u v w p < 0 -> orient v u z < 0 -> 0 <= incircle u v w z ->
+  0 <= orient u v p -> incircle v u z p < 0.
+Proof.
+  intros u v w z p Ow Ip Oz Iz Op. pose proof (circle_pencil u v w z p) as E.
+  rewrite (orient_flip u v z) in Oz. rewrite (incircle_flip u v z p).
+  set (A := incircle u v z p) in *. set (ow := orient u v w) in *. set (ip := incircle u v w p) in *.
+  set (oz := orient u v z) in *. set (iz := incircle u v w z) in *. set (op := orient u v p) in *.
+  clearbody A ow ip oz iz op.
+  destruct (Qlt_le_dec 0 A) as [L|L]; [lra|exfalso]. nra.
+Qed.
+
+(* p strictly inside the clockwise super triangle (n, n+1, n+2) of the point array P *)
+Definition sup_in (P : list pt) (n : nat) (p : pt) : Prop :=
+  orient (nth n P pzero) (nth (S n) P pzero) p < 0 /\
+  orient (nth (S n) P pzero) (nth (S (S n)) P pzero) p < 0 /\
+  orient (nth (S (S n)) P pzero) (nth n P pzero) p < 0.
+
+(* (c) of the classical argument: every boundary edge of the cavity sees the new point strictly on
+   its inner side.  Otherwise the triangle behind the edge would be bad as well. *)
+Theorem star_from_closed : forall P n T i (old : nat -> Prop),
+  (forall t, In t T -> gorient (resolve P t) < 0) ->
+  empty_for P T old ->
+  (forall t a, In t T -> In a (tri_verts t) -> old a) ->
+  edge_closed n T ->
+  sup_in P n (nth i P pzero) ->
+  star_shaped P T i.
+Proof.
+  intros P n T i old CW Inv VO EC [S1 [S2 S3]] e He.
+  unfold cavity_boundary in He. pose proof He as He'. apply polygon_in in He'.
+  destruct He' as [b [Hb [Eb Sh]]]. pose proof Hb as Hb'. apply bad_of_in in Hb'. destruct Hb' as [HbT Bad].
+  destruct e as [u v]. cbn [fst snd].
+  destruct (EC b (u, v) HbT Eb) as [Se|[g [Hg Eg]]].
+  - simpl in Se. destruct Se as [E|[E|[E|[]]]]; injection E as <- <-; assumption.
+  - cbn [fst snd] in Eg.
+    set (p := nth i P pzero) in *. set (pu := nth u P pzero). set (pv := nth v P pzero).
+    destruct (Qlt_le_dec (orient pu pv p) 0) as [L|L]; [exact L|exfalso].
+    destruct (edge_third_v P b u v Eb) as [w [_ [_ [_ [Ow Iw]]]]].
+    destruct (edge_third_v P g v u Eg) as [z [Vz [_ [_ [Oz Iz]]]]].
+    fold pu pv in Ow, Iw, Oz, Iz. set (pw := nth w P pzero) in *. set (pz := nth z P pzero) in *.
+    pose proof (CW b HbT) as Cb. rewrite Ow in Cb.
+    pose proof (CW g Hg) as Cg. rewrite Oz in Cg.
+    apply in_circb_lt in Bad. rewrite Iw in Bad.
+    pose proof (Inv b z HbT (VO g z Hg Vz)) as Ez. fold pz in Ez. apply in_circb_ge in Ez. rewrite Iw in Ez.
+    pose proof (pencil_neighbour_bad pu pv pw pz p Cb Bad Cg Ez L) as Gb.
+    assert (Bg : In g (bad_of P T i)).
+    { apply bad_of_in. split; [exact Hg|]. apply in_circb_lt. rewrite Iz. exact Gb. }
+    assert (S : shared (bad_of P T i) b (u, v) = true); [|congruence].
+    apply shared_true. exists g. split; [exact Bg|]. split.
+    + intros ->. exact (no_both_directions P b u v (CW b HbT) Eb Eg).
+    + exists (v, u). split; [exact Eg|]. unfold edge_same. cbn [fst snd].
+      rewrite !Nat.eqb_refl. rewrite orb_true_r. reflexivity.
+Qed.
+
+(* the triangulation continues behind every boundary edge beyond which an old point lies: behind an
+   edge of the super triangle there is no old point *)
+Theorem continues_from_closed : forall P n T i (old : nat -> Prop),
+  edge_closed n T ->
+  gorient (resolve P (super_tri n)) < 0 ->
+  (forall j, old j -> (j < n)%nat -> sup_in P n (nth j P pzero)) ->
+  (forall j, old j -> (j < n + 3)%nat) ->
+  continues_behind P T i old.
+Proof.
+  intros P n T i old EC Hs In_ Bd e j He Hj Side.
+  unfold cavity_boundary in He. apply polygon_in in He. destruct He as [b [Hb [Eb _]]].
+  apply bad_of_in in Hb. destruct Hb as [HbT _].
+  destruct (EC b e HbT Eb) as [Se|G]; [exfalso|exact G].
+  unfold super_tri, gorient, resolve in Hs.
+  set (pl := nth n P pzero) in *. set (pt_ := nth (S n) P pzero) in *. set (pr := nth (S (S n)) P pzero) in *.
+  destruct (Nat.lt_ge_cases j n) as [Lt|Ge].
+  - destruct (In_ j Hj Lt) as [A1 [A2 A3]]. fold pl pt_ pr in A1, A2, A3.
+    simpl in Se. destruct Se as [E|[E|[E|[]]]]; subst e; cbn [fst snd] in Side; fold pl pt_ pr in Side; lra.
+  - pose proof (Bd j Hj) as B. assert (C : j = n \/ j = S n \/ j = S (S n)) by lia.
+    simpl in Se.
+    destruct Se as [E|[E|[E|[]]]]; subst e; cbn [fst snd] in Side; fold pl pt_ pr in Side;
+      destruct C as [->|[->| ->]]; fold pl pt_ pr in Side; unfold orient in *; lra.
+Qed.
+
+(* ---- the run: the invariants, now also "every vertex of the triangulation is an inserted point" *)
+Lemma edge_verts : forall t e, In e (edges t) -> In (fst e) (tri_verts t) /\ In (snd e) (tri_verts t).
+Proof. intros [[a b] c] e [<-|[<-|[<-|[]]]]; simpl; auto. Qed.
+
+Lemma inside_sup_in : forall super pts j,
+  inside_super super pts -> (j < length pts)%nat ->
+  sup_in (pts ++ super pts) (length pts) (nth j (pts ++ super pts) pzero).
+Proof.
+  intros super pts j H Hj. unfold inside_super, super_gtri in H. destruct H as [_ H].
+  specialize (H (nth j pts pzero) (nth_In _ _ Hj)). unfold sup_in.
+  rewrite (app_nth1 pts (super pts) pzero Hj). rewrite !(app_nth2 pts (super pts)) by lia.
+  replace (length pts - length pts)%nat with 0%nat by lia.
+  replace (S (length pts) - length pts)%nat with 1%nat by lia.
+  replace (S (S (length pts)) - length pts)%nat with 2%nat by lia. exact H.
+Qed.
+
+Lemma state_inv_closed : forall super pts,
+  inside_super super pts -> closed_run super pts ->
+  forall k, (k <= length pts)%nat ->
+    (forall t, In t (bw_state super pts k) -> gorient (resolve (pts ++ super pts) t) < 0) /\
+    empty_for (pts ++ super pts) (bw_state super pts k) (old_at (length pts) k) /\
+    (forall t a, In t (bw_state super pts k) -> In a (tri_verts t) -> old_at (length pts) k a) /\
+    (forall j, (j < k)%nat ->
+       star_shaped (pts ++ super pts) (bw_state super pts j) j /\
+       continues_behind (pts ++ super pts) (bw_state super pts j) j (old_at (length pts) j)).
+Proof.
+  intros super pts Hin Cl.
+  assert (Hs : gorient (super_gtri super pts) < 0).
+  { unfold inside_super in Hin. destruct (super_gtri super pts) as [[l t] r]. exact (proj1 Hin). }
+  set (n := length pts). set (P := pts ++ super pts).
+  assert (R : resolve P (super_tri n) = super_gtri super pts).
+  { unfold super_tri, resolve, super_gtri, P, n. rewrite !app_nth2 by lia.
+    replace (length pts - length pts)%nat with 0%nat by lia.
+    replace (S (length pts) - length pts)%nat with 1%nat by lia.
+    replace (S (S (length pts)) - length pts)%nat with 2%nat by lia. reflexivity. }
+  induction k as [|k IH]; intros Hk.
+  - unfold bw_state. cbn [seq fold_left]. fold n. fold P. split; [|split; [|split]].
+    + intros t [<-|[]]. rewrite R. exact Hs.
+    + intros t j [<-|[]] [Hj|Hj]; [lia|]. apply in_circb_ge. rewrite R.
+      assert (C : j = n \/ j = S n \/ j = S (S n)) by lia.
+      unfold super_gtri, gincircle. cbv beta iota. subst P n. destruct C as [->|[->| ->]]; rewrite app_nth2 by lia.
+      * replace (length pts - length pts)%nat with 0%nat by lia. rewrite incircle_v1. apply Qle_refl.
+      * replace (S (length pts) - length pts)%nat with 1%nat by lia. rewrite incircle_v2. apply Qle_refl.
+      * replace (S (S (length pts)) - length pts)%nat with 2%nat by lia. rewrite incircle_self. apply Qle_refl.
+    + intros t a [<-|[]] Ha. unfold super_tri in Ha. simpl in Ha. unfold old_at. lia.
+    + intros j Hj. lia.
+  - destruct (IH ltac:(lia)) as [CW [Inv [VO Prev]]].
+    assert (Star : star_shaped P (bw_state super pts k) k).
+    { apply (star_from_closed P n _ k (old_at n k) CW Inv VO (Cl k ltac:(unfold n in *; lia))).
+      apply inside_sup_in; [exact Hin|lia]. }
+    assert (Cont : continues_behind P (bw_state super pts k) k (old_at n k)).
+    { apply (continues_from_closed P n _ k (old_at n k) (Cl k ltac:(unfold n in *; lia))).
+      - rewrite R. exact Hs.
+      - intros j _ Lt. apply inside_sup_in; [exact Hin|exact Lt].
+      - intros j [Hj|Hj]; unfold n in *; lia. }
+    rewrite bw_state_S. fold P. split; [|split; [|split]].
+    + intros x Hx. apply insert_in in Hx. destruct Hx as [[Hx _]|[e [He [_ ->]]]]; [apply CW; exact Hx|].
+      pose proof (Star e He) as St. destruct e as [u v]. cbn [fst snd] in St.
+      rewrite (star_new_tri P u v k St). exact St.
+    + pose proof (insert_keeps_empty P _ k _ CW Inv Star Cont) as E.
+      intros t j Ht Hj. apply (E t j Ht). unfold old_at in *. lia.
+    + intros x a Hx Ha. apply insert_in in Hx. destruct Hx as [[Hx _]|[e [He [_ ->]]]].
+      * specialize (VO x a Hx Ha). unfold old_at in *. lia.
+      * apply polygon_in in He. destruct He as [b [Hb [Eb _]]]. apply bad_of_in in Hb. destruct Hb as [HbT _].
+        destruct (edge_verts b e Eb) as [V1 V2].
+        pose proof (VO b _ HbT V1) as O1. pose proof (VO b _ HbT V2) as O2.
+        destruct (new_tri_cases P e k) as [E|E]; rewrite E in Ha; simpl in Ha;
+          destruct Ha as [<-|[<-|[<-|[]]]]; unfold old_at in *; lia.
+    + intros j Hj. destruct (Nat.eq_dec j k) as [->|Ne]; [split; assumption|apply Prev; lia].
+Qed.
+
+Theorem cavities_from_closed : forall super pts,
+  inside_super super pts -> closed_run super pts -> cavities_ok super pts.
+Proof.
+  intros super pts Hin Cl k Hk.
+  destruct (state_inv_closed super pts Hin Cl (length pts) (le_n _)) as [_ [_ [_ Prev]]].
+  apply Prev. exact Hk.
+Qed.
+
+Lemma super_fixed_inside : forall pts,
+  (exists a b, In a pts /\ In b pts /\ (~ fst a == fst b \/ ~ snd a == snd b)) ->
+  inside_super super_fixed pts.
+Proof.
+  intros pts [a [b [Ha [Hb D]]]]. pose proof (bbox_size_pos pts a b Ha Hb D) as S.
+  unfold inside_super. pose proof (super_fixed_contains pts) as C.
+  destruct (super_gtri super_fixed pts) as [[l t] r]. split.
+  - exact (proj1 (C a S Ha)).
+  - intros p Hp. pose proof (C p S Hp) as H. tauto.
+Qed.
+
+(* Delaunay from the combinatorial invariant alone *)
+Theorem bw_delaunay_closed : forall pts ts,
+  (exists a b, In a pts /\ In b pts /\ (~ fst a == fst b \/ ~ snd a == snd b)) ->
+  closed_run super_fixed pts -> bw pts = Some ts ->
+  (forall t, In t ts -> idx_ok (length pts) t /\ gorient (resolve pts t) < 0) /\
+  empty_circles pts ts.
+Proof.
+  intros pts ts D Cl H. pose proof (super_fixed_inside pts D) as Hin.
+  apply (bw_delaunay_conditional super_fixed pts ts).
+  - unfold inside_super in Hin. destruct (super_gtri super_fixed pts) as [[l t] r]. exact (proj1 Hin).
+  - apply cavities_from_closed; assumption.
+  - exact H.
+Qed.
+
+(* decidability of the combinatorial invariant *)
+Lemma edge_closedb_ok : forall n T, edge_closedb n T = true -> edge_closed n T.
+Proof.
+  intros n T H t e Ht He. unfold edge_closedb in H. rewrite forallb_forall in H.
+  specialize (H t Ht). rewrite forallb_forall in H. specialize (H e He).
+  apply orb_true_iff in H. destruct H as [H|H].
+  - left. apply existsb_exists in H. destruct H as [f [Hf E]]. apply edge_eqb_eq in E. subst f. exact Hf.
+  - right. apply existsb_exists in H. destruct H as [g [Hg H]]. exists g. split; [exact Hg|].
+    apply existsb_exists in H. destruct H as [f [Hf E]]. apply edge_eqb_eq in E. subst f. exact Hf.
+Qed.
+
+Lemma closed_runb_from_ok : forall P n m a T,
+  closed_runb_from P n (seq a m) T = true ->
+  forall k, (a <= k < a + m)%nat -> edge_closed n (fold_left (insert P) (seq a (k - a)) T).
+Proof.
+  intros P n m. induction m as [|m IH]; intros a T H k Hk; [lia|].
+  cbn [seq closed_runb_from] in H. apply andb_true_iff in H. destruct H as [H1 H2].
+  destruct (Nat.eq_dec k a) as [->|Ne].
+  - replace (a - a)%nat with 0%nat by lia. cbn [seq fold_left]. apply edge_closedb_ok. exact H1.
+  - specialize (IH (S a) (insert P T a) H2 k ltac:(lia)).
+    replace (k - a)%nat with (S (k - S a)) by lia. cbn [seq fold_left]. exact IH.
+Qed.
+
+Theorem closed_runb_ok : forall super pts, closed_runb super pts = true -> closed_run super pts.
+Proof.
+  intros super pts H k Hk. unfold closed_runb in H.
+  pose proof (closed_runb_from_ok _ _ _ _ _ H k ltac:(lia)) as R. rewrite Nat.sub_0_r in R. exact R.
+Qed.
